@@ -7,6 +7,7 @@ from itertools import zip_longest
 from typing import Any, Dict, Generator, List, Optional, Tuple, Union
 
 from ruamel.yaml.comments import CommentedMap, CommentedSeq, CommentedSet
+from ruamel.yaml.scalarbool import ScalarBoolean
 
 from yamlpath import YAMLPath
 from yamlpath.wrappers import ConsolePrinter, NodeCoords
@@ -191,7 +192,7 @@ class Differ:
                 rhs_val = self._eyamlproc.decrypt_eyaml(rhs)
                 rhs = rhs.replace("\r", "").replace(" ", "")
 
-        if lhs_val == rhs_val:
+        if Differ._is_same_data(lhs_val, rhs_val):
             self._diffs.append(
                 DiffEntry(DiffActions.SAME, path, lhs, rhs, **kwargs)
             )
@@ -730,6 +731,10 @@ class Differ:
                 if not Differ._is_same_data(lele, rele):
                     return False
             return True
+        if (isinstance(lhs, (bool, ScalarBoolean))
+                != isinstance(rhs, (bool, ScalarBoolean))):
+            # A Boolean is no number: true is not 1
+            return False
         return bool(lhs == rhs)
 
     @classmethod
